@@ -602,7 +602,178 @@ theorem C18_string_prefix_selection_differs :
       = ["proj/train/t.txt".toList, "proj/train_aug/u.txt".toList, "proj/train.csv".toList] := by
   decide
 
+/-! ## a typed target is never reinterpreted: names that repeat along a path -/
+
+theorem slash_cons_ne_self (a t : Str) : a ++ '/' :: t ≠ t := by
+  intro h
+  have := congrArg List.length h
+  simp at this
+  omega
+
+/-- **C18, a typed target is never reinterpreted.**  In every current directory other than the
+    root, for EVERY target list — whatever the targets begin with — the head of
+    `filter_targets_from_store` resolves each typed target `t` to the plain join `cwd/t`
+    (`= rootTarget cwd t`); the resolved target is never the typed one; in particular a target that
+    itself begins with `cwd/` (`t = cwd/u`) is resolved to `cwd/cwd/u`, the current directory
+    occurring TWICE.  (`C18_target_resolution_is_join` adds that this is the normalised path
+    `XvcPath::new` records.) -/
+theorem C18_target_never_reinterpreted (cwd : List Str) (h : cwd ≠ []) (ts : List Str) :
+    prefixStore cwd (some ts) = some (ts.map (fun t => cwdStr cwd ++ '/' :: t)) ∧
+    (∀ t, cwdStr cwd ++ '/' :: t = rootTarget cwd t ∧ cwdStr cwd ++ '/' :: t ≠ t) ∧
+    (∀ u, prefixStore cwd (some [cwdStr cwd ++ '/' :: u]) = some [rootTarget (cwd ++ cwd) u]) := by
+  refine ⟨by simp [prefixStore, h], fun t => ⟨(rootTarget_eq cwd t h).symm, slash_cons_ne_self _ _⟩, ?_⟩
+  intro u
+  rw [C18_prefix_store, ← rootTarget_eq cwd u h, C18_join_assoc]
+  rfl
+
+/-- the resolution is the NORMALISED join: for plain components (no `.`, `..`, empty) the resolved
+    target splits into the components of the current directory followed by the components of the
+    typed target, and that is the path `XvcPath::new` resolves from `cwd` for `t` and from the
+    root for the resolved target — also when `t` begins with `cwd` again. -/
+theorem C18_target_resolution_is_join (cwd : List Str) (h : cwd ≠ []) (hw : WfCwd cwd)
+    (hp : ∀ c ∈ cwd, PlainComp c) (t : Str) (ht : ∀ c ∈ splitSlash t, PlainComp c) :
+    splitSlash (cwdStr cwd ++ '/' :: t) = cwd ++ splitSlash t ∧
+    xvcPathNew cwd t = cwd ++ splitSlash t ∧
+    xvcPathNew [] (cwdStr cwd ++ '/' :: t) = cwd ++ splitSlash t := by
+  rw [← rootTarget_eq cwd t h]
+  have e1 := splitSlash_rootTarget cwd hw t
+  have e2 : xvcPathNew cwd t = cwd ++ splitSlash t := by
+    unfold xvcPathNew
+    rw [normalize_plain _ _ ht, List.reverse_reverse]
+  exact ⟨e1, e2, by rw [← C18_destination_equiv cwd hw hp t ht, e2]⟩
+
+/-- **C18, a file target names the joined path and nothing else.**  With the concrete matcher: a
+    target `t` typed in `cwd` whose resolution `cwd/t` is literal, is not a directory and has no
+    recorded path below it selects exactly the recorded path `cwd/t` — for every path store, in
+    particular one that ALSO records the path spelled `t` from the root. -/
+theorem C18_file_target_selects_joined_path (isDir : Str → Bool) (cwd : List Str) (t : Str)
+    (paths : List Str)
+    (hlit : ∀ x ∈ rootTarget cwd t, x ≠ '*' ∧ x ≠ '?')
+    (hns : endsWithSlash (rootTarget cwd t) = false)
+    (hnd : isDir (rootTarget cwd t) = false)
+    (hnp : paths.any (fun p => (rootTarget cwd t ++ ['/']).isPrefixOf p) = false) :
+    selectStore globMatch isDir cwd (some [t]) paths =
+      paths.filter (fun p => rootTarget cwd t == p) := by
+  have hst := not_hasStar_of_literal _ hlit
+  rw [C18_store_equiv]
+  simp only [selectStore, prefixStore, if_true, selectStoreRoot, filterPathsByGlobs, List.map_cons,
+    List.map_nil]
+  have hne : ¬ ([rootTarget cwd t] = ([] : List Str)) := by simp
+  simp only [hne, if_false]
+  have hsr : slashRule paths (rootTarget cwd t) = rootTarget cwd t := by
+    simp [slashRule, hns, hst, hnp]
+  rw [hsr]
+  simp only [buildGlobs, List.map_cons, List.map_nil, hns, hst, hnd, List.any_cons, List.any_nil,
+    Bool.or_false]
+  apply List.filter_congr
+  intro p _
+  simp [globMatch_literal _ hlit p]
+
+/-- **from the inner directory `data/x.bin` names `data/data/x.bin`.**  General form: standing in
+    `cwd`, the target `cwd/u` selects what the root selects for `cwd/cwd/u` (every matcher, every
+    store); and under the hypotheses of the file-target theorem it does NOT select the outer path
+    `cwd/u`, even when that path is recorded. -/
+theorem C18_inner_directory_target (gm : Str → Str → Bool) (isDir : Str → Bool) (cwd : List Str)
+    (u : Str) (paths : List Str) :
+    selectStore gm isDir cwd (some [rootTarget cwd u]) paths =
+      selectStore gm isDir [] (some [rootTarget (cwd ++ cwd) u]) paths ∧
+    (cwd ≠ [] →
+      (∀ x ∈ rootTarget (cwd ++ cwd) u, x ≠ '*' ∧ x ≠ '?') →
+      endsWithSlash (rootTarget (cwd ++ cwd) u) = false →
+      isDir (rootTarget (cwd ++ cwd) u) = false →
+      paths.any (fun p => (rootTarget (cwd ++ cwd) u ++ ['/']).isPrefixOf p) = false →
+      rootTarget cwd u ∉ selectStore globMatch isDir cwd (some [rootTarget cwd u]) paths) := by
+  constructor
+  · rw [C18_store_equiv]
+    simp [C18_join_assoc]
+  · intro h hlit hns hnd hnp hmem
+    have e : rootTarget cwd (rootTarget cwd u) = rootTarget (cwd ++ cwd) u := (C18_join_assoc cwd cwd u).symm
+    rw [C18_file_target_selects_joined_path isDir cwd (rootTarget cwd u) paths
+      (by rw [e]; exact hlit) (by rw [e]; exact hns) (by rw [e]; exact hnd) (by rw [e]; exact hnp)] at hmem
+    have hm := (List.mem_filter.mp hmem).2
+    have heq : rootTarget cwd (rootTarget cwd u) = rootTarget cwd u := by simpa using hm
+    rw [rootTarget_eq cwd (rootTarget cwd u) h] at heq
+    exact slash_cons_ne_self _ _ heq
+
+/-- the head that keeps targets beginning with `cwd/` as typed agrees with the code on a target
+    list exactly when NO target begins with `cwd/`: the region in which the two differ is the
+    region of names that repeat along a path. -/
+theorem C18_keep_prefixed_target_agrees_iff (cwd : List Str) (h : cwd ≠ []) (ts : List Str) :
+    prefixStoreKeep cwd (some ts) = prefixStore cwd (some ts) ↔
+      ∀ t ∈ ts, (cwdStr cwd ++ ['/']).isPrefixOf t = false := by
+  simp only [prefixStoreKeep, prefixStore, h, if_false, Option.some.injEq]
+  rw [List.map_inj_left]
+  constructor
+  · intro hall t ht
+    have := hall t ht
+    cases hp : (cwdStr cwd ++ ['/']).isPrefixOf t with
+    | false => rfl
+    | true =>
+      rw [if_pos hp] at this
+      exact absurd this.symm (slash_cons_ne_self _ _)
+  · intro hall t ht
+    simp [hall t ht]
+
+/-- **keeping a target that begins with the current directory as typed is a different function**
+    (seeded/C18-6).  Two recorded paths `data/x.bin` and `data/data/x.bin` (and `data/y.bin`),
+    current directory `data`: the code resolves the typed `data/x.bin` to `data/data/x.bin` and
+    selects the INNER file, exactly what the root selects for `data/data/x.bin`; the keeping head
+    leaves `data/x.bin` and selects the OUTER file.  The same for the directory target `data/`
+    (inner directory vs everything in `data`), the glob `data/*.bin`, and at depth 2 (`a/b` inside
+    `a/b`).  Targets that do not begin with `data/` (`x.bin`, `data`) are resolved alike.
+    Replayed on the real binary by `lib/c18.py` (corpus, layout `repeat`). -/
+theorem C18_keep_prefixed_target_counterexample :
+    let paths := ["data/x.bin".toList, "data/data/x.bin".toList, "data/y.bin".toList]
+    let isDir : Str → Bool := fun d => d == "data".toList || d == "data/data".toList
+    prefixStore ["data".toList] (some ["data/x.bin".toList]) = some ["data/data/x.bin".toList] ∧
+    prefixStoreKeep ["data".toList] (some ["data/x.bin".toList]) = some ["data/x.bin".toList] ∧
+    selectStore globMatch isDir ["data".toList] (some ["data/x.bin".toList]) paths
+      = ["data/data/x.bin".toList] ∧
+    selectStore globMatch isDir [] (some ["data/data/x.bin".toList]) paths
+      = ["data/data/x.bin".toList] ∧
+    selectStoreKeep globMatch isDir ["data".toList] (some ["data/x.bin".toList]) paths
+      = ["data/x.bin".toList] ∧
+    selectStore globMatch isDir ["data".toList] (some ["data/".toList]) paths
+      = ["data/data/x.bin".toList] ∧
+    selectStoreKeep globMatch isDir ["data".toList] (some ["data/".toList]) paths = paths ∧
+    selectStore globMatch isDir ["data".toList] (some ["data/*.bin".toList]) paths
+      = ["data/data/x.bin".toList] ∧
+    selectStoreKeep globMatch isDir ["data".toList] (some ["data/*.bin".toList]) paths
+      = ["data/x.bin".toList, "data/y.bin".toList] ∧
+    selectStore globMatch (fun _ => false) ["a".toList, "b".toList] (some ["a/b/f.txt".toList])
+      ["a/b/f.txt".toList, "a/b/a/b/f.txt".toList] = ["a/b/a/b/f.txt".toList] ∧
+    selectStoreKeep globMatch (fun _ => false) ["a".toList, "b".toList] (some ["a/b/f.txt".toList])
+      ["a/b/f.txt".toList, "a/b/a/b/f.txt".toList] = ["a/b/f.txt".toList] ∧
+    selectStoreKeep globMatch isDir ["data".toList] (some ["x.bin".toList, "data".toList]) paths
+      = selectStore globMatch isDir ["data".toList] (some ["x.bin".toList, "data".toList]) paths := by
+  decide
+
 /-! ## non-vacuity -/
+
+/-- the hypotheses of `C18_file_target_selects_joined_path` / `C18_inner_directory_target` hold for
+    `cwd = data`, `u = x.bin` with the store `data/x.bin`, `data/data/x.bin`, `data/y.bin`, and the
+    selection is the inner file; those of `C18_target_resolution_is_join` hold for `t = data/x.bin`;
+    `C18_keep_prefixed_target_agrees_iff`: `data/x.bin` begins with `data/`, `x.bin` does not -/
+example : rootTarget (["data".toList] ++ ["data".toList]) "x.bin".toList = "data/data/x.bin".toList ∧
+    (∀ x ∈ rootTarget (["data".toList] ++ ["data".toList]) "x.bin".toList, x ≠ '*' ∧ x ≠ '?') ∧
+    endsWithSlash (rootTarget (["data".toList] ++ ["data".toList]) "x.bin".toList) = false ∧
+    (["data/x.bin".toList, "data/data/x.bin".toList, "data/y.bin".toList].any
+      (fun p => (rootTarget (["data".toList] ++ ["data".toList]) "x.bin".toList ++ ['/']).isPrefixOf p)) = false ∧
+    selectStore globMatch (fun d => d == "data".toList || d == "data/data".toList) ["data".toList]
+      (some [rootTarget ["data".toList] "x.bin".toList])
+      ["data/x.bin".toList, "data/data/x.bin".toList, "data/y.bin".toList] = ["data/data/x.bin".toList] := by
+  decide
+example : (∀ c ∈ ["data".toList], PlainComp c) ∧ (∀ c ∈ splitSlash "data/x.bin".toList, PlainComp c) ∧
+    xvcPathNew ["data".toList] "data/x.bin".toList = ["data".toList, "data".toList, "x.bin".toList] := by
+  have h : splitSlash "data/x.bin".toList = ["data".toList, "x.bin".toList] := by decide
+  rw [h]
+  refine ⟨?_, ?_, by decide⟩
+  · intro c hc; simp at hc; subst hc; exact ⟨by decide, by decide, by decide⟩
+  · intro c hc; simp at hc; rcases hc with rfl | rfl <;> exact ⟨by decide, by decide, by decide⟩
+example : (cwdStr ["data".toList] ++ ['/']).isPrefixOf "data/x.bin".toList = true ∧
+    (cwdStr ["data".toList] ++ ['/']).isPrefixOf "x.bin".toList = false ∧
+    (cwdStr ["data".toList] ++ ['/']).isPrefixOf "data".toList = false := by decide
+
 
 /-- the hypotheses of `C18_destination_climbing_same_as_root` hold for `cwd = data/raw`,
     `D = other/a.txt` -/
@@ -740,3 +911,15 @@ open Targets in
 #print axioms C18_destination_dot_and_detour
 open Targets in
 #print axioms C18_plain_join_destination_differs
+open Targets in
+#print axioms C18_target_never_reinterpreted
+open Targets in
+#print axioms C18_target_resolution_is_join
+open Targets in
+#print axioms C18_file_target_selects_joined_path
+open Targets in
+#print axioms C18_inner_directory_target
+open Targets in
+#print axioms C18_keep_prefixed_target_agrees_iff
+open Targets in
+#print axioms C18_keep_prefixed_target_counterexample
